@@ -242,6 +242,12 @@ impl<'a> LeafNode<'a> {
             self.cell_count()
         );
         let offset = self.slot_offset(index);
+        ensure!(
+            offset + SLOT_SIZE <= PAGE_SIZE,
+            "slot {} lies beyond page boundary (cell_count={})",
+            index,
+            self.cell_count()
+        );
         Slot::ref_from_bytes(&self.data[offset..offset + SLOT_SIZE])
             .map_err(|e| eyre::eyre!("failed to read slot at index {}: {:?}", index, e))
     }
@@ -414,6 +420,12 @@ impl<'a> LeafNodeMut<'a> {
             self.cell_count()
         );
         let offset = self.slot_offset(index);
+        ensure!(
+            offset + SLOT_SIZE <= PAGE_SIZE,
+            "slot {} lies beyond page boundary (cell_count={})",
+            index,
+            self.cell_count()
+        );
         Slot::ref_from_bytes(&self.data[offset..offset + SLOT_SIZE])
             .map_err(|e| eyre::eyre!("failed to read slot at index {}: {:?}", index, e))
     }
